@@ -62,12 +62,18 @@ MISSED = {
  'C17/r4-change2': 'HypCluster histories also with a regularizer that differs between clusters (average loss = mean loss + regularizer decides the assignment)',
  'C19/r4-change1': 'disk-full fault at the raw file level: a short write without an exception, later writes fail with ENOSPC; open() emulated with or without a buffered writer',
  'C18/r4-change2': 'parameter trees may contain empty tuple nodes (and one-element tuple nodes) next to array leaves',
+ 'C01/r5-change2': 'new check definition_float64: the definition check in a child interpreter with JAX_ENABLE_X64=1 and float64 parameters at 1e-11 * scale',
+ 'C02/r5-change1': 'the same for_each_client function is called a second time with the SAME shared-input container whose entries were replaced in between',
+ 'C04/r5-change1': 'num_epochs up to 33 over small datasets (the epoch-derived count for large N * num_epochs / batch_size)',
+ 'C09/r5-change1': 'the toy experiment state carries a weakly typed device scalar and a float16 array whose product keeps its dtype only while the scalar stays weakly typed (also asserted directly in C16 state_roundtrip)',
+ 'C10/r5-change1': 'aggregator histories over bfloat16 client trees; the cross-process check first runs an unrelated float32 aggregator round in the original process',
  'C18/r3-change1': 'the 7- and 8-factor (length, block) pairs, left out on compile cost, are executed op by op under jax.disable_jit()',
 }
 # Filed changes that the checks do not detect ON PURPOSE: the input they need lies
 # outside the documented domain of the property, so a check that flagged them
 # would also flag code in which the property holds.
 NOT_CLAIMED = {
+ 'C02/r5-change2': 'needs clients whose batch shapes are uniform inside every pmap block but differ between blocks; which clients share a block is decided by the backend (sorted by batch count), so the only domain a caller controls -- and the one the checks generate -- is one batch shape for all clients of a call',
  'C06/r4-change2': 'needs a per-example loss of shape [n, 1]; fedjax.grad documents the per-example loss as "a vector of loss values for each example in the batch", and a masked sum that broadcasts instead of flattening is correct for every vector-shaped loss',
 }
 for k, why in NOT_CLAIMED.items():
